@@ -13,6 +13,15 @@ def generate(G):
              tier=tier, skeleton={"parameters": shapes, "holding_gradient": list(has), "repeats": repeats},
              domains="values, gradients D4; lr in {0,0.5,1,2}")
 
+    def obf(shapes, has, tier):
+        id = "c13_frozen_untracked_%s_g%s" % ("_".join(G.sname(d) for d in shapes), "".join("1" if h else "0" for h in has))
+        G.ob(id, "C13", "update_frozen_untracked",
+             "c13::update_with(s, &[%s], &[%s], 1, true)" % (", ".join(G.rs(d) for d in shapes), ", ".join("true" if h else "false" for h in has)),
+             unwind=6, tier=tier, skeleton={"parameters": shapes, "holding_gradient": list(has), "frozen_by": "stop_tracking()"},
+             domains="values, gradients D4; lr in {0,0.5,1,2}")
+
+    obf([[2], [1, 2]], [True, False], "quick")
+    obf([[2], [2], [1]], [False, True, False], "thorough")
     ob([[2]], [True], 1, "quick")
     ob([[2]], [False], 1, "quick")
     ob([[2], [1, 2]], [True, True], 1, "quick")
